@@ -129,3 +129,38 @@ fn c20_one_vrp_mixed() {
     let a: bool = kani::any();
     check_one(a, !a)
 }
+
+/// Two VRPs of one family: RFC 6811 over a data set of two entries (Valid if some covering VRP matches,
+/// Invalid if VRPs cover but none matches, NotFound otherwise).
+fn check_two(v6: bool) {
+    let (o1, vp1, ml1, asn1) = any_origin(v6);
+    let (o2, vp2, ml2, asn2) = any_origin(v6);
+    kani::assume(o1 < o2);                       // the snapshot keeps its origins strictly sorted
+    let snap = crate::payload::snapshot_kani::snapshot_from_sorted_origins(
+        vec![(o1, info()), (o2, info())]
+    );
+    let rp = any_prefix(v6);
+    let rasn: u32 = kani::any();
+    let v = RouteValidity::new(rp, Asn::from_u32(rasn), &snap);
+    let c1 = covers_ref(vp1, rp);
+    let c2 = covers_ref(vp2, rp);
+    let m1 = c1 && rp.len() <= ml1 && rasn == asn1;
+    let m2 = c2 && rp.len() <= ml2 && rasn == asn2;
+    let exp = if m1 || m2 { 1 } else if c1 || c2 { 2 } else { 0 };
+    assert!(exp == state_code(v.state()));
+    let total = v.matched.len() + v.bad_asn.len() + v.bad_len.len();
+    assert!(total == (c1 as usize) + (c2 as usize));
+    assert!(v.matched.len() == (m1 as usize) + (m2 as usize));
+    kani::cover!(exp == 1 && c1 && c2 && !m1, "second_vrp_validates");
+    kani::cover!(exp == 2 && c1 && c2, "both_cover_none_matches");
+    std::mem::forget(v);
+    std::mem::forget(snap);
+}
+
+#[kani::proof]
+#[kani::unwind(4)]
+fn c20_two_vrps_v4() { check_two(false) }
+
+#[kani::proof]
+#[kani::unwind(4)]
+fn c20_two_vrps_v6() { check_two(true) }
